@@ -20,6 +20,9 @@ TRUSTED = ['harness/gen_tables.py', 'correspondence harness (parsecorr.py, commo
            'modelled, not verified: control flow of reader.py, tokens.py']
 ASSUMPTIONS = ['CPython exceptions map to the model error vocabulary as in common.classify_exc',
                'the model driver is the compiled form of the verified definitions']
+LEAN_TARGETS = LEAN_TARGETS + ['TexSoupProofs.Properties.TableSpec']
+# entries of the generated tables that the property's statement names (they stop compiling when a table edit drops them)
+THEOREMS = THEOREMS + ['TexSoup.TableSpec.' + n for n in ['comment_ignored_invalid_chars']]
 
 ALPHA = gen.TOKEN_ALPHA + ['\x00', '\x7f']
 ALLOWED = ('TREE', 'ERR EOF', 'ERR TYPE', 'ERR ASSERT')
